@@ -94,5 +94,15 @@ pub fn candidates(seed: u64) -> Vec<Value> {
             out.push(json!({"case": "dtree_cnf", "cnf": cnf, "order": part}));
         }
     }
+    // labels beyond 64 (variable sets are bit sets)
+    for _ in 0..30 {
+        let pool: Vec<i64> = vec![1, 2, 3, 33, 63, 64, 65, 66, 70, 129, 130];
+        let ncl = 2 + nx(5);
+        let cnf: Vec<Vec<i64>> = (0..ncl).map(|_| (0..1 + nx(3)).map(|_| { let v = pool[nx(11) as usize]; if nx(2) == 0 { v } else { -v } }).collect()).collect();
+        let mx = cnf.iter().flat_map(|c| c.iter().map(|l| l.unsigned_abs())).max().unwrap_or(1);
+        let mut order: Vec<u64> = (0..mx).collect();
+        for i in (1..mx as usize).rev() { let j = nx(i as u64 + 1) as usize; order.swap(i, j); }
+        out.push(json!({"case": "dtree_cnf", "cnf": cnf, "order": order}));
+    }
     out
 }
